@@ -7,6 +7,7 @@
   machine-checked counterexample (finding D10), replayed on the implementation by the monitor.
 -/
 import Sq.Machine
+import SqLemmas.CopyLemmas
 namespace SqProps.C03
 open Sq
 
@@ -72,5 +73,93 @@ example : ∃ xs : List Val, xs.length ≥ maxArraySize :=
 
 example (xs : List Val) : ∃ (s : BState) (a : Nat), s.heap.get? a = some (.list xs) :=
   ⟨{ heap := #[.list xs], rng := 0, rx := [] }, 0, by simp [Heap.get?]⟩
+
+/-! ### [B] the converse direction: a successful adder had room, and no object ends up beyond the cap -/
+
+/-- number of elements of a heap object (0 for a missing one) -/
+def objLen : Option HObj → Nat
+  | some (.list xs) => xs.length
+  | some (.dict kvs) => kvs.length
+  | none => 0
+
+theorem check_ok_list (h : Heap) (a : Nat) (xs : List Val) (hg : h.get? a = some (.list xs))
+    (hc : checkArraySize h (.ref a) = .ok ()) : xs.length < maxArraySize := by
+  simp only [checkArraySize, pyLen, hg] at hc
+  split at hc
+  · cases hc
+  · omega
+
+/-- **a successful `push` had room**: whatever the arguments, if `push` returns, its first argument was a list object with
+    fewer than 10000 elements, which now has exactly one more — the pushed value, at the end — and the state is otherwise
+    the same -/
+theorem push_success_shape (args : List Val) (s : BState) (v : Val) (s' : BState) (h : b_push args s = .ok (v, s')) :
+    ∃ a xs x, args = [.ref a, x] ∧ s.heap.get? a = some (.list xs) ∧ xs.length < maxArraySize ∧
+      s' = { s with heap := s.heap.set a (.list (xs ++ [x])) } := by
+  unfold b_push at h
+  split at h
+  · rename_i c x
+    split at h
+    · cases h
+    · rename_i hc
+      split at h
+      · rename_i a
+        split at h
+        · rename_i xs hg
+          simp only [ret] at h
+          injection h with h; injection h with h1 h2
+          exact ⟨a, xs, x, rfl, hg, check_ok_list _ _ _ hg hc, h2.symm⟩
+        · cases h
+      · cases h
+      · cases h
+  · cases h
+
+/-- **a successful `insert` had room**: the list had fewer than 10000 elements and now holds the same elements with the new
+    one somewhere in between — exactly one more -/
+theorem insert_success_shape (args : List Val) (s : BState) (v : Val) (s' : BState) (h : b_insert args s = .ok (v, s')) :
+    ∃ a xs x j, s.heap.get? a = some (.list xs) ∧ xs.length < maxArraySize ∧
+      s' = { s with heap := s.heap.set a (.list (xs.take j ++ x :: xs.drop j)) } := by
+  unfold b_insert at h
+  split at h
+  · rename_i c i x
+    split at h
+    · cases h
+    · rename_i hc
+      split at h
+      · rename_i a
+        split at h
+        · rename_i xs hg
+          split at h
+          · cases h
+          · rename_i k hk
+            simp only [ret] at h
+            injection h with h; injection h with h1 h2
+            exact ⟨a, xs, x, _, hg, check_ok_list _ _ _ hg hc, h2.symm⟩
+        · cases h
+      · cases h
+      · cases h
+  · cases h
+
+/-- **`push` and `insert` never take any object beyond the cap**: after a successful call every object of the heap has at most
+    `max 10000 (its length before)` elements — in fact the receiver has one more (at most 10000) and every other object is
+    untouched -/
+theorem push_insert_keep_cap (args : List Val) (s : BState) (v : Val) (s' : BState)
+    (h : b_push args s = .ok (v, s') ∨ b_insert args s = .ok (v, s')) (b : Nat) :
+    objLen (s'.heap.get? b) ≤ max maxArraySize (objLen (s.heap.get? b)) := by
+  have key : ∀ (a : Nat) (xs ys : List Val), s.heap.get? a = some (.list xs) → ys.length = xs.length + 1 →
+      xs.length < maxArraySize → s' = { s with heap := s.heap.set a (.list ys) } →
+      objLen (s'.heap.get? b) ≤ max maxArraySize (objLen (s.heap.get? b)) := by
+    intro a xs ys hg hl hlt hs
+    subst hs
+    simp only [get?_set]
+    split
+    · simp only [objLen]; omega
+    · omega
+  rcases h with h | h
+  · obtain ⟨a, xs, x, _, hg, hlt, hs⟩ := push_success_shape args s v s' h
+    exact key a xs _ hg (by simp) hlt hs
+  · obtain ⟨a, xs, x, j, hg, hlt, hs⟩ := insert_success_shape args s v s' h
+    refine key a xs _ hg ?_ hlt hs
+    simp only [List.length_append, List.length_cons, List.length_take, List.length_drop]
+    omega
 
 end SqProps.C03
